@@ -162,11 +162,26 @@ static void hello(void)
 	xread(&now_us, 8);
 }
 
+/* Descriptor numbers are the operating system's choice: SIMNET_FDMODE=desc hands them out from 200 downwards (the first one
+   opened - the tun device - then has the highest number, as under socket activation), =high from 500 upwards. */
 static int reserve_fd(void)
 {
-	int fd = __real_open("/dev/null", O_RDWR);
+	static int mode = -1, next_desc = 200, next_high = 500;
+	int fd = __real_open("/dev/null", O_RDWR), nfd;
 	if (fd < 0 || fd >= MAXFD) die("cannot reserve fd");
-	return fd;
+	if (mode < 0) {
+		const char *m = getenv("SIMNET_FDMODE");
+		mode = !m ? 0 : !strcmp(m, "desc") ? 1 : !strcmp(m, "high") ? 2 : 0;
+	}
+	if (mode == 0) return fd;
+	for (;;) {
+		int want = mode == 1 ? next_desc-- : next_high++;
+		if (want < 8 || want >= MAXFD - 1) { mode = 0; return fd; }
+		if (fcntl(want, F_GETFD) != -1) continue;	/* in use */
+		nfd = fcntl(fd, F_DUPFD, want);
+		if (nfd == want) { close(fd); return nfd; }
+		if (nfd >= 0) close(nfd);
+	}
 }
 
 /* ------------------------------------------------------------------ time */
